@@ -310,15 +310,17 @@ def untuple_records(tree: ast.Module, modname: str) -> int:
         if not fields or any(isinstance(st, ast.AnnAssign) and st.value is not None for st in cls.body) \
                 or any(isinstance(st, (ast.FunctionDef, ast.AsyncFunctionDef)) for st in cls.body):
             continue
+        # `self.<field>` of another class is that class's own attribute (the record's instances are never called `self`:
+        # the class has no methods); anything else that stores to a field name, or another record with the same field, clashes
         clash = False
         for n in ast.walk(tree):
-            if isinstance(n, ast.Attribute) and n.attr in fields and isinstance(n.ctx, (ast.Store, ast.Del)):
+            if isinstance(n, ast.Attribute) and n.attr in fields and isinstance(n.ctx, (ast.Store, ast.Del)) \
+                    and not (isinstance(n.value, ast.Name) and n.value.id == "self"):
                 clash = True
             if isinstance(n, ast.ClassDef) and n is not cls:
-                for x in ast.walk(n):
-                    if isinstance(x, ast.Attribute) and x.attr in fields and isinstance(x.value, ast.Name) and x.value.id == "self":
-                        clash = True
-                    if isinstance(x, ast.AnnAssign) and isinstance(x.target, ast.Name) and x.target.id in fields and x in n.body:
+                for x in n.body:
+                    if isinstance(x, ast.AnnAssign) and isinstance(x.target, ast.Name) and x.target.id in fields \
+                            and any((isinstance(b, ast.Name) and b.id == "NamedTuple") for b in n.bases):
                         clash = True
         if clash:
             continue
@@ -343,7 +345,7 @@ def untuple_records(tree: ast.Module, modname: str) -> int:
 
             def visit_Attribute(self, n):
                 self.generic_visit(n)
-                if n.attr in flds and isinstance(n.ctx, ast.Load):
+                if n.attr in flds and isinstance(n.ctx, ast.Load) and not (isinstance(n.value, ast.Name) and n.value.id == "self"):
                     return ast.copy_location(ast.Subscript(value=n.value, slice=ast.Constant(value=flds.index(n.attr)), ctx=ast.Load()), n)
                 return n
         T().visit(tree)
@@ -455,6 +457,24 @@ def anyall_to_loops(tree: ast.Module, modname: str) -> int:
                     if not (isinstance(b, list) and b and isinstance(b[0], ast.stmt)):
                         continue
                     for i, st in enumerate(b):
+                        # `if any(e for t in it if c): BODY` (no else) == `for t in it: if c: if e: BODY; break`
+                        if name == "any" and isinstance(st, ast.If) and not st.orelse:
+                            tt = st.test
+                            if isinstance(tt, ast.Call) and isinstance(tt.func, ast.Name) and tt.func.id == "any" and len(tt.args) == 1 and not tt.keywords \
+                                    and isinstance(tt.args[0], ast.GeneratorExp) and len(tt.args[0].generators) == 1 \
+                                    and not any(isinstance(x, (ast.Break, ast.Continue)) for s2 in st.body for x in ast.walk(s2)):
+                                g = tt.args[0]
+                                c = g.generators[0]
+                                inner2: List[ast.stmt] = [ast.If(test=g.elt, body=list(st.body) + [ast.Break()], orelse=[])]
+                                for cond in reversed(c.ifs):
+                                    inner2 = [ast.If(test=cond, body=inner2, orelse=[])]
+                                tgt2 = copy.deepcopy(c.target)
+                                for t in ast.walk(tgt2):
+                                    if isinstance(t, (ast.Name, ast.Tuple, ast.List)):
+                                        t.ctx = ast.Store()
+                                b[i] = ast.copy_location(ast.For(target=tgt2, iter=c.iter, body=inner2, orelse=[], type_comment=None), st)
+                                count += 1
+                                continue
                         v = st.value if isinstance(st, ast.Return) else None
                         if not (isinstance(v, ast.Call) and isinstance(v.func, ast.Name) and v.func.id == name and len(v.args) == 1 and not v.keywords
                                 and isinstance(v.args[0], ast.GeneratorExp) and len(v.args[0].generators) == 1 and not v.args[0].generators[0].is_async):
@@ -475,6 +495,65 @@ def anyall_to_loops(tree: ast.Module, modname: str) -> int:
                         b[i:i + 1] = new
                         count += 1
                         break
+    if count:
+        ast.fix_missing_locations(tree)
+    return count
+
+
+
+# --------------------------------------------------------------------------- str.format() new in a function
+def format_to_fstrings(tree: ast.Module, modname: str) -> int:
+    """`"..{}..{}..".format(a, b)` with plain positional fields is the f-string `f"..{a}..{b}.."`. Converted only in functions
+    whose reference version did not call `.format` - the product of an `f-string -> str.format()` refactoring; the rules read
+    line shapes and log interpolations from f-strings."""
+    import re as _re
+    from .inline import all_function_quals
+    from .relocate import shapes
+    ref = shapes().get(modname)
+    if not ref:
+        return 0
+    count = 0
+
+    class T(ast.NodeTransformer):
+        def visit_Call(self, n):
+            nonlocal count
+            self.generic_visit(n)
+            f = n.func
+            if not (isinstance(f, ast.Attribute) and f.attr == "format" and isinstance(f.value, ast.Constant) and isinstance(f.value.value, str) and not n.keywords
+                    and not any(isinstance(a, ast.Starred) for a in n.args)):
+                return n
+            text = f.value.value
+            parts = _re.split(r"(\{\{|\}\}|\{\d*\})", text)
+            vals: List[ast.AST] = []
+            auto = 0
+            for p in parts:
+                if p in ("{{", "}}"):
+                    lit = p[0]
+                elif _re.fullmatch(r"\{\d*\}", p or ""):
+                    idx = int(p[1:-1]) if len(p) > 2 else auto
+                    auto += 1
+                    if idx >= len(n.args):
+                        return n
+                    vals.append(ast.FormattedValue(value=n.args[idx], conversion=-1, format_spec=None))
+                    continue
+                else:
+                    lit = p
+                    if "{" in lit or "}" in lit:
+                        return n  # named fields, format specs: left alone
+                if lit:
+                    if vals and isinstance(vals[-1], ast.Constant):
+                        vals[-1] = ast.Constant(value=vals[-1].value + lit)
+                    else:
+                        vals.append(ast.Constant(value=lit))
+            count += 1
+            return ast.copy_location(ast.JoinedStr(values=vals), n)
+
+    for q, (fn, cls, outer) in all_function_quals(tree).items():
+        r = ref.get(q)
+        if r is None or ".format" in r["bag"] or outer is not None:
+            continue
+        for i, st in enumerate(fn.body):
+            fn.body[i] = T().visit(st)
     if count:
         ast.fix_missing_locations(tree)
     return count
